@@ -151,6 +151,16 @@ CHECKS = {
              "URL-safe attributes, inline markup, templates, parser functions, HTML elements, definition lists).",
         note=TRUST + "per-kind emitters and the parser exercised, not modelled; equivalence relation is harness/c19.py:norm.",
         ref="DESIGN.md section 4 C19"),
+    "C12": dict(
+        technique="Coq proof (ingest = adds of exactly the selected pages; last selected page per key; canonical titles verbatim) + stored-row correspondence on real .xml.bz2 dumps",
+        text="Theorems c12_stores_exactly_the_selected_pages, c12_each_key_holds_its_last_selected_page, "
+             "c12_no_duplicate_keys and c12_canonical_titles_are_not_altered, for every dump and namespace selection. The model "
+             "is tied to dumpparser.py by writing generated dumps as real .xml.bz2 files, running parse_dump_xml + "
+             "add_default_templates, and comparing get_all_pages() with the model's rows inside Coq and with the expectation "
+             "the generator knows by construction (XML-special characters, significant whitespace, duplicates, redirects, "
+             "content models, /documentation and /testcases placements, include/noinclude template bodies).",
+        note=TRUST + "lxml/bz2 and _template_to_body are glue under the diff; namespace table regenerated from data/en.",
+        ref="DESIGN.md section 4 C12"),
 }
 
 NOT_YET = "check not built yet in this round (planned, see DESIGN.md section 8)"
